@@ -160,4 +160,15 @@ TEXTS["C14"] = {
     "level_note": NOTE_B + "; time is virtual",
 }
 
+TEXTS["C15"] = {
+    "engine": "vsched", "design_ref": "DESIGN.md §4 C15",
+    "technique": "deviation-bounded DFS over the orders of client reactor steps, request issues, scripted-server actions and "
+                 "virtual-time ticks, with a real Experimental::Client whose threads are gated at epoll_wait",
+    "level_text": "For every scenario (client threads, connection limit, batch of tagged requests, per-request server "
+                  "behaviour, time-outs) every schedule within the deviation bound is executed against the real client; "
+                  "settle-once, own-response-only, fulfilled-when-answered, rejected-on-time-out and the connection limit are "
+                  "checked per execution.",
+    "level_note": NOTE_B + "; one known finding (late response after a time-out) is listed in known_findings.json",
+}
+
 NOT_APPLICABLE = {}
